@@ -165,7 +165,14 @@ func runScenario(run *evid.Run, src *source, k, nscen, nextra int) {
 	}()
 	s.env = sbx.New()
 	defer s.env.Cleanup()
-	if k >= nscen {
+	if src.wide {
+		s.plan = genWidePlan(s.r, src, k, run.Seed)
+		run.Count("wide_tree_scenarios", 1)
+		if s.plan.Delay != "none" {
+			src.delays.Store(fmt.Sprintf("s%d", k), delayFor(s.plan.Delay, run.Seed*31+int64(k)))
+			defer src.delays.Delete(fmt.Sprintf("s%d", k))
+		}
+	} else if k >= nscen {
 		s.plan = genRefPlan(s.r, src, k, nscen, nextra, run.Seed)
 		run.Count("reference_unlinked_scenarios_"+s.plan.RefHow, 1)
 	} else {
@@ -173,13 +180,16 @@ func runScenario(run *evid.Run, src *source, k, nscen, nextra int) {
 	}
 	s.srvRepo = fmt.Sprintf("s%d", k)
 	tail := genTail(run.Seed, src, k, nscen, s.plan)
+	if src.wide {
+		tail = nil
+	}
 	if tail != nil {
 		s.plan.Ops = append(s.plan.Ops, *tail)
 		run.Count("tail_shapes_planned_"+tail.Shape, 1)
 	}
 	fp := genFault(run.Seed, src.idx, k, s.plan)
-	if s.plan.Kind == 8 {
-		fp = nil // the reference-store template runs against a well-behaved server
+	if s.plan.Kind == 8 || s.plan.Kind == 9 {
+		fp = nil // these templates run against a server that answers correctly
 	}
 	if fp == nil && tail != nil && tail.FaultTail {
 		// an otherwise fault-free scenario whose last command, fetch --refetch, meets a server that fails for one or
@@ -261,6 +271,10 @@ func (s *scn) runPlan() {
 	}
 	if len(p.CfgExc) > 0 {
 		deliver(p.CfgVia, "lfs.fetchexclude", joinPats(p.CfgExc))
+	}
+	if p.BatchSize > 0 {
+		deliver(p.CfgVia, "lfs.transfer.batchsize", fmt.Sprint(p.BatchSize))
+		deliver(p.URLVia, "lfs.concurrenttransfers", fmt.Sprint(p.Concurrent))
 	}
 	if s.fp != nil {
 		deliver(s.fp.Via, "lfs.transfer.maxretries", fmt.Sprint(s.fp.Retries))
@@ -358,6 +372,25 @@ func (s *scn) runPlan() {
 		}
 	}
 	seed := func() {
+		if p.Store == "preseed-middle" {
+			ps := ptrsAt(s.env, s.model, "HEAD")
+			sort.Slice(ps, func(i, j int) bool { return ps[i].Path < ps[j].Path })
+			n := len(ps)
+			outer := map[string]bool{}
+			for i, pi := range ps {
+				if i < n/4 || i >= 3*n/4 {
+					outer[pi.Oid] = true
+				}
+			}
+			dir := filepath.Join(s.gitDir, "lfs", "objects")
+			for i, pi := range ps {
+				if i >= n/4 && i < 3*n/4 && !outer[pi.Oid] {
+					s.seedObject(dir, pi.Oid)
+				}
+			}
+			s.seeded = append(s.seeded, fmt.Sprintf("middle half of %d paths", n))
+			return
+		}
 		if p.Store != "preseed-subset" {
 			return
 		}
@@ -604,7 +637,7 @@ func (s *scn) runOp(step int, o opPlan) {
 		return nil // lfs checkout never downloads
 	})
 	inj0 := s.injected()
-	if o.Shape != "" || s.refObjs != "" {
+	if o.Shape != "" || s.refObjs != "" || s.src.wide {
 		c.logSeq = s.lastSeq()
 	}
 	c.res = s.exec(o.Kind, cwd, envExtra, "git", args...)
@@ -616,6 +649,19 @@ func (s *scn) runOp(step int, o opPlan) {
 	s.run.Count("scenario_ops_"+o.Kind, 1)
 	s.judge(c)
 	s.countFromReference(c)
+	if s.src.wide && o.Kind == "lfs-pull" {
+		nb := 0
+		for _, rq := range s.src.srv.Log() {
+			if rq.Repo == s.srvRepo && rq.Kind == "batch" && rq.Seq > c.logSeq {
+				nb++
+			}
+		}
+		s.run.Count("wide_pulls", 1)
+		s.run.Count("wide_pull_batch_requests_observed", int64(nb))
+		if nb >= 10 {
+			s.run.Count("wide_pulls_with_10_or_more_batches", 1)
+		}
+	}
 	if o.Kind == "git-checkout" {
 		s.observeSmudge(o.Kind)
 		if !c.res.OK() && s.fs != nil {
@@ -722,6 +768,7 @@ type opCtx struct {
 	op        opPlan          // the operation (tail shapes)
 	preStore  map[string]bool // tail shapes: oids hash-valid in lfs/objects before the command
 	logSeq    int             // tail shapes: last server request before the command
+	dups      map[string]int  // wide trees: oid -> number of tracked pointer paths of HEAD holding it
 }
 
 func classify(st fstate, ok bool, pi pinfo) string {
@@ -753,6 +800,10 @@ func (s *scn) trigger(c *opCtx, pi pinfo) string {
 	t := c.kind
 	if c.shape != "" {
 		t += "-" + c.shape
+	}
+	if s.src.wide && c.dups[pi.Oid] > 1 {
+		// several selected working-tree files of this wide tree share the object
+		return t + "-duplicate-content-across-batches"
 	}
 	if s.plan.RefHow != "" && c.preStore != nil && !c.preStore[pi.Oid] && s.refHas(pi.Oid) {
 		// the object was in the reference store only, and nothing in this clone had looked there yet
@@ -826,6 +877,21 @@ func (s *scn) judge(c *opCtx) {
 	isPtrPath := map[string]bool{}
 	for _, pi := range head {
 		isPtrPath[pi.Path] = true
+	}
+	if s.src.wide {
+		c.dups = map[string]int{}
+		for _, pi := range head {
+			if pi.Tracked {
+				c.dups[pi.Oid]++
+			}
+		}
+		if c.kind == "lfs-pull" || c.kind == "lfs-checkout" {
+			for _, n := range c.dups {
+				if n > 1 {
+					s.run.Count("wide_files_sharing_an_oid", int64(n))
+				}
+			}
+		}
 	}
 	if !ok {
 		s.opFailed(c.kind, c.res, c.injected)
